@@ -104,6 +104,17 @@ struct LcSim : Harness {
     }
     return (int64_t) ((uint64_t) v * 3 + (uint64_t) tag);
   }
+  // external with many integer arguments: folds the first n
+  static int64_t extn_c(int64_t n, int64_t a1, int64_t a2, int64_t a3, int64_t a4, int64_t a5, int64_t a6, int64_t a7, int64_t a8, int64_t a9, int64_t a10, int64_t a11, int64_t a12, int64_t a13, int64_t a14, int64_t a15, int64_t a16, int64_t a17, int64_t a18, int64_t a19, int64_t a20,
+                        int64_t b1, int64_t b2, int64_t b3, int64_t b4, int64_t b5, int64_t b6, int64_t b7, int64_t b8, int64_t b9, int64_t b10, int64_t b11, int64_t b12, int64_t b13, int64_t b14, int64_t b15, int64_t b16, int64_t b17, int64_t b18, int64_t b19, int64_t b20,
+                        int64_t c1, int64_t c2, int64_t c3, int64_t c4, int64_t c5, int64_t c6, int64_t c7, int64_t c8, int64_t c9, int64_t c10, int64_t c11, int64_t c12, int64_t c13, int64_t c14, int64_t c15, int64_t c16, int64_t c17, int64_t c18, int64_t c19, int64_t c20,
+                        int64_t d1, int64_t d2, int64_t d3, int64_t d4, int64_t d5, int64_t d6, int64_t d7, int64_t d8, int64_t d9, int64_t d10) {
+    int64_t a[] = {a1, a2, a3, a4, a5, a6, a7, a8, a9, a10, a11, a12, a13, a14, a15, a16, a17, a18, a19, a20, b1, b2, b3, b4, b5, b6, b7, b8, b9, b10, b11, b12, b13, b14, b15, b16, b17, b18, b19, b20,
+                   c1, c2, c3, c4, c5, c6, c7, c8, c9, c10, c11, c12, c13, c14, c15, c16, c17, c18, c19, c20, d1, d2, d3, d4, d5, d6, d7, d8, d9, d10};
+    LcSim *s = g_self; s->ext_log.push_back({100 + n, a1 - 1}); s->clock_ticks++; s->C->count("ext_many_args_called");
+    uint64_t r = (uint64_t) n; for (int64_t i = 0; i < n && i < 70; i++) r = r * 31 + (uint64_t) a[i];
+    return (int64_t) r;
+  }
   // native twins of synthetic definitions {"salt":77000+k,"na":1,"body":[["ret","a0"]]} used by load_external / resolver
   template <int K> static int64_t extdef(int64_t a0) { return (int64_t) ((uint64_t) a0 * prog::RETMUL + (uint64_t) (77000 + K)); }
   static void *extdef_addr(int k) { static void *t[] = {(void *) extdef<0>, (void *) extdef<1>, (void *) extdef<2>, (void *) extdef<3>, (void *) extdef<4>, (void *) extdef<5>, (void *) extdef<6>, (void *) extdef<7>}; return t[k & 7]; }
@@ -117,6 +128,7 @@ struct LcSim : Harness {
   static void *resolver_c(const char *name) {
     LcSim *s = g_self; s->resolver_asked.push_back(name); s->C->count("resolver_consulted");
     if (!strcmp(name, "ext")) return (void *) ext_c;
+    if (!strcmp(name, "extn")) return (void *) extn_c;
     auto it = s->resolver_k.find(name); if (it == s->resolver_k.end()) return nullptr;
     return extdef_addr(it->second);
   }
@@ -286,6 +298,7 @@ struct LcSim : Harness {
       if (nm == 0) return; size_t mi = (size_t) argi(1) % nm; if (mods[mi].created) return;
       MIR_module_t before = DLIST_TAIL(MIR_module_t, *MIR_get_module_list(ctx));
       if (o == "scan") { phase("MIR_scan_string", "module " + std::to_string(mi)); std::string t = module_text(mi); if (getenv("LCSIM_DUMP")) fprintf(stderr, "%s\n", t.c_str()); MIR_scan_string(ctx, t.c_str()); mods[mi].via = "scan"; C->count("module_via_scan"); }
+      else if (o == "c2m" && uses(prog_json->at("mods")[mi], "extn")) return;  // no C form for the many-argument external: created by the fallback scan
       else if (o == "c2m") {
         if (!c2m_on) { phase("c2mir_init"); c2mir_init(ctx); c2m_on = true; }
         std::string src = module_c(mi); CSrc cs{&src, 0}; struct c2mir_options opts; memset(&opts, 0, sizeof opts);
@@ -357,7 +370,7 @@ struct LcSim : Harness {
   void do_link(const Json &op, Outcome &out) {
     int iface = (int) (op.size() > 1 ? op[1].num() : 1) % 5; bool use_resolver = op.size() > 2 && op[2].num() != 0;
     if ((iface >= 2) && !gen_on) { phase("MIR_gen_init"); MIR_gen_init(ctx); gen_on = true; MIR_gen_set_optimize_level(ctx, (unsigned) opt_level); }
-    if (!ext_loaded && !use_resolver && mode != "C13") { MIR_load_external(ctx, "ext", (void *) ext_c); ext_loaded = true; }
+    if (!ext_loaded && !use_resolver && mode != "C13") { MIR_load_external(ctx, "ext", (void *) ext_c); MIR_load_external(ctx, "extn", (void *) extn_c); ext_loaded = true; }
     // model: bind every import of every pending module
     expect_error = -1; std::vector<std::pair<int, std::string>> newly;
     for (int mi : pending) for (auto &n : imports_of((size_t) mi)) {
@@ -581,7 +594,7 @@ struct LcSim : Harness {
     bool big = r.chance(1, 8);   // large bodies: code that spans pages, many switch tables (absolute-address relocations)
     if (big) { go.body = (int) r.range(20, 70); go.nfuncs = (int) r.range(2, 5); }
     // swarm: feature subset per run
-    go.lref = r.chance(1, 2); go.jt = r.chance(1, 2); go.sw = r.chance(2, 3); go.icall = r.chance(1, 2); go.ext = r.chance(2, 3); go.mem = r.chance(1, 2); go.loops = r.chance(2, 3); go.doubles = r.chance(1, 3); go.recursion = r.chance(1, 2);
+    go.lref = r.chance(1, 2); go.jt = r.chance(1, 2); go.sw = r.chance(2, 3); go.icall = r.chance(1, 2); go.ext = r.chance(2, 3); go.mem = r.chance(1, 2); go.loops = r.chance(2, 3); go.doubles = r.chance(1, 3); go.recursion = r.chance(1, 2); go.extn = r.chance(1, 4);
     if (big) { go.sw = true; go.sw_weight = 30; go.recursion = false; }
     prog::Generator g(r, go); Json prog = g.program(); prog::protect_fuel(prog);
     for (auto &mo : prog["mods"].a) mo.set("fwd_first", (int) r.coin());
@@ -640,7 +653,7 @@ struct LcSim : Harness {
     // optional re-entry of MIR from the external
     if (go.ext && r.chance(1, 2)) {
       Json re = Json::object();
-      for (auto &mo : prog.at("mods").a) for (auto &f : mo.at("funcs").a) { bool leaf = true; prog::walk(f.at("body"), [&](const Json &st) { if (st[0].s == "call" || st[0].s == "icall" || st[0].s == "ext" || st[0].s == "jt" || st[0].s == "lt" || st[0].s == "ld") leaf = false; }); if (leaf && f.geti("na") >= 2 && re.size() < 2) re.set(std::to_string(1 + (int) re.size() * 2), f.gets("name")); }
+      for (auto &mo : prog.at("mods").a) for (auto &f : mo.at("funcs").a) { bool leaf = true; prog::walk(f.at("body"), [&](const Json &st) { if (st[0].s == "call" || st[0].s == "icall" || st[0].s == "ext" || st[0].s == "jt" || st[0].s == "lt" || st[0].s == "ld" || st[0].s == "extn") leaf = false; }); if (leaf && f.geti("na") >= 2 && re.size() < 2) re.set(std::to_string(1 + (int) re.size() * 2), f.gets("name")); }
       if (re.size()) kn.set("reenter", re);
     }
     plan.set("knobs", kn); plan.set("prog", prog); plan.set("ops", ops);
